@@ -1145,4 +1145,475 @@ theorem C16_preorder (e : Expr) (n i : Nat) (h : i < groupCount e) :
     (groupNums (renumber e n).1)[i]? = some (n + i) := by
   rw [groupNums_renumber, List.getElem?_range' h]; simp
 
+/-! ### the source-level fact: which group a name is bound to -/
+
+/-- **C16_named_group**: the source-level fact behind `ann`. When `parse_group` stands at `(?<name>`
+    (after the optional white space: `hws`; not a look-behind: `hlook`; `parse_id` reads the name
+    `re[a..b]`: `hid`) and succeeds, it returns a CAPTURE group `Group(child)`, the counter has
+    advanced by `1 + groupCount child`, and the table is the old one extended by
+    `name ↦ curr_group + 1` — the number `renumber` gives this very node, its opening parenthesis
+    being the `(curr_group + 1)`-th — followed by the names of the groups inside `child` -/
+theorem C16_named_group (isAlnum : Char → Bool) {re : Bytes} (f : Nat) (st st' : PState)
+    {ix d ix1 a b skip ix' : Nat} {e : Expr}
+    (hws : optWs re st.flags (ix + 1) = .ok ix1) (hlook : lookOf re ix1 = none)
+    (hs : startsWithAt re ix1 [ch '?', ch '<'] = true)
+    (hid : parseId isAlnum re (ix1 + 1) [ch '<'] [ch '>'] false = .ok (some (a, b, skip)))
+    (h : parseGroup isAlnum (f + 1) re st ix d = .ok (ix', e, st')) :
+    ∃ child annC, e = .group 0 child ∧ annC.length = groupCount child ∧
+      st'.currGroup = st.currGroup + 1 + groupCount child ∧
+      st'.namedGroups = bindNames st.namedGroups st.currGroup
+        (some (re.extract a b).toList :: annC) := by
+  rw [parseGroup] at h
+  split at h
+  · cases h
+  simp only [hws, Res.ok_bind, hlook, hs, if_true] at h
+  unfold sliceFrom at h
+  split at h
+  · split at h
+    · simp only [Res.ok_bind, hid] at h
+      have hsk := (okP_parseId isAlnum re (ix1 + 1) [ch '<'] [ch '>'] false).of_eq hid _ _ _ rfl
+      simp only [List.length_cons, List.length_nil] at hsk
+      have hne : (skip + 1 == 2) = false := by simp; omega
+      simp only [hne] at h
+      cases hre : parseRe isAlnum f re
+            { backrefs := st.backrefs, flags := st.flags,
+              namedGroups := namedInsert st.namedGroups (Array.extract re a b).toList (st.currGroup + 1),
+              numericBackrefs := st.numericBackrefs, currGroup := st.currGroup + 1, lastReHadAlt := st.lastReHadAlt }
+            (ix1 + (skip + 1)) (d + 1) with
+      | ok r =>
+        obtain ⟨ix2, child, st3⟩ := r
+        rw [hre] at h
+        simp only [Res.ok_bind] at h
+        obtain ⟨hc, annC, hl, hb⟩ := C16_parseRe_counter isAlnum _ _ _ _ _ _ _ _ hre
+        simp only at hc hb
+        cases hcp : checkForCloseParen re st3.flags ix2 with
+        | ok ix3 =>
+          rw [hcp] at h
+          simp only [Res.ok_bind, Bool.false_eq_true, if_false, Res.ok.injEq, Prod.mk.injEq] at h
+          obtain ⟨_, rfl, rfl⟩ := h
+          exact ⟨child, annC, rfl, hl, by omega, by simpa [bindNames] using hb⟩
+        | err k p => rw [hcp] at h; cases h
+        | cerr => rw [hcp] at h; cases h
+        | panic s => rw [hcp] at h; cases h
+        | outOfFuel => rw [hcp] at h; cases h
+      | err k p => rw [hre] at h; cases h
+      | cerr => rw [hre] at h; cases h
+      | panic s => rw [hre] at h; cases h
+      | outOfFuel => rw [hre] at h; cases h
+    · cases h
+  · cases h
+
+/-- the same for the `(?P<name>` spelling -/
+theorem C16_named_group_P (isAlnum : Char → Bool) {re : Bytes} (f : Nat) (st st' : PState)
+    {ix d ix1 a b skip ix' : Nat} {e : Expr}
+    (hws : optWs re st.flags (ix + 1) = .ok ix1) (hlook : lookOf re ix1 = none)
+    (hs1 : startsWithAt re ix1 [ch '?', ch '<'] = false)
+    (hs : startsWithAt re ix1 [ch '?', ch 'P', ch '<'] = true)
+    (hid : parseId isAlnum re (ix1 + 2) [ch '<'] [ch '>'] false = .ok (some (a, b, skip)))
+    (h : parseGroup isAlnum (f + 1) re st ix d = .ok (ix', e, st')) :
+    ∃ child annC, e = .group 0 child ∧ annC.length = groupCount child ∧
+      st'.currGroup = st.currGroup + 1 + groupCount child ∧
+      st'.namedGroups = bindNames st.namedGroups st.currGroup
+        (some (re.extract a b).toList :: annC) := by
+  rw [parseGroup] at h
+  split at h
+  · cases h
+  simp only [hws, Res.ok_bind, hlook, hs1, hs, if_true, Bool.false_eq_true, if_false] at h
+  unfold sliceFrom at h
+  split at h
+  · split at h
+    · simp only [Res.ok_bind, hid] at h
+      have hsk := (okP_parseId isAlnum re (ix1 + 2) [ch '<'] [ch '>'] false).of_eq hid _ _ _ rfl
+      simp only [List.length_cons, List.length_nil] at hsk
+      have hne : (skip + 2 == 2) = false := by simp; omega
+      simp only [hne] at h
+      cases hre : parseRe isAlnum f re
+            { backrefs := st.backrefs, flags := st.flags,
+              namedGroups := namedInsert st.namedGroups (Array.extract re a b).toList (st.currGroup + 1),
+              numericBackrefs := st.numericBackrefs, currGroup := st.currGroup + 1, lastReHadAlt := st.lastReHadAlt }
+            (ix1 + (skip + 2)) (d + 1) with
+      | ok r =>
+        obtain ⟨ix2, child, st3⟩ := r
+        rw [hre] at h
+        simp only [Res.ok_bind] at h
+        obtain ⟨hc, annC, hl, hb⟩ := C16_parseRe_counter isAlnum _ _ _ _ _ _ _ _ hre
+        simp only at hc hb
+        cases hcp : checkForCloseParen re st3.flags ix2 with
+        | ok ix3 =>
+          rw [hcp] at h
+          simp only [Res.ok_bind, Bool.false_eq_true, if_false, Res.ok.injEq, Prod.mk.injEq] at h
+          obtain ⟨_, rfl, rfl⟩ := h
+          exact ⟨child, annC, rfl, hl, by omega, by simpa [bindNames] using hb⟩
+        | err k p => rw [hcp] at h; cases h
+        | cerr => rw [hcp] at h; cases h
+        | panic s => rw [hcp] at h; cases h
+        | outOfFuel => rw [hcp] at h; cases h
+      | err k p => rw [hre] at h; cases h
+      | cerr => rw [hre] at h; cases h
+      | panic s => rw [hre] at h; cases h
+      | outOfFuel => rw [hre] at h; cases h
+    · cases h
+  · cases h
+
+/-! ## The model of `capture_names` -/
+
+/-- one `names[i] = Some(name)` of `capture_names`; `none` is the index-out-of-bounds panic -/
+def captureNamesStep (acc : Option (List (Option Name))) (e : Name × Nat) :
+    Option (List (Option Name)) :=
+  match acc with
+  | none => none
+  | some v => if e.2 < v.length then some (v.set e.2 (some e.1)) else none
+
+/-- `Regex::capture_names` (src/lib.rs): `names.resize(captures_len, None)`, then
+    `names[i] = Some(name)` for every entry `(name, i)` of `named_groups`, in the order `order` in
+    which the `HashMap` iterates (unspecified: the theorems hold for every order) -/
+def captureNames (order : Names) (len : Nat) : Option (List (Option Name)) :=
+  order.foldl captureNamesStep (some (List.replicate len none))
+
+theorem captureNames_fold (len : Nat) : ∀ (order : Names) (v0 : List (Option Name)),
+    v0.length = len → (∀ e ∈ order, e.2 < len) →
+    (∀ e1 ∈ order, ∀ e2 ∈ order, e1.2 = e2.2 → e1.1 = e2.1) →
+    ∃ v, order.foldl captureNamesStep (some v0) = some v ∧ v.length = len ∧
+      ∀ k nm, v[k]? = some (some nm) ↔
+        ((nm, k) ∈ order ∨ (v0[k]? = some (some nm) ∧ ∀ e ∈ order, e.2 ≠ k)) := by
+  intro order
+  induction order with
+  | nil => intro v0 hl _ _; exact ⟨v0, rfl, hl, by simp⟩
+  | cons e es ih =>
+    intro v0 hl hlt hinj
+    have he : e.2 < v0.length := by rw [hl]; exact hlt e (List.mem_cons_self ..)
+    simp only [List.foldl_cons, captureNamesStep, he, if_true]
+    obtain ⟨v, hv, hvl, hiff⟩ := ih (v0.set e.2 (some e.1)) (by simp [hl])
+      (fun e' h' => hlt e' (List.mem_cons_of_mem _ h'))
+      (fun e1 h1 e2 h2 => hinj e1 (List.mem_cons_of_mem _ h1) e2 (List.mem_cons_of_mem _ h2))
+    refine ⟨v, hv, hvl, fun k nm => ?_⟩
+    rw [hiff, List.getElem?_set]
+    constructor
+    · rintro (h | ⟨h1, h2⟩)
+      · exact Or.inl (List.mem_cons_of_mem _ h)
+      · by_cases hk : e.2 = k
+        · simp only [hk, if_true] at h1
+          split at h1
+          · simp only [Option.some.injEq] at h1
+            left
+            have : e = (nm, k) := Prod.ext h1 hk
+            rw [this]; exact List.mem_cons_self ..
+          · cases h1
+        · simp only [hk, if_false] at h1
+          refine Or.inr ⟨h1, fun e' he' => ?_⟩
+          rcases List.mem_cons.mp he' with rfl | h'
+          · exact hk
+          · exact h2 e' h'
+    · rintro (h | ⟨h1, h2⟩)
+      · rcases List.mem_cons.mp h with heq | h'
+        · by_cases hex : ∃ e' ∈ es, e'.2 = k
+          · obtain ⟨e', he', hk'⟩ := hex
+            left
+            have h1 : e'.1 = nm := by
+              have := hinj e' (List.mem_cons_of_mem _ he') e (List.mem_cons_self ..)
+                (by rw [hk', ← heq])
+              rw [this, ← heq]
+            have : e' = (nm, k) := Prod.ext h1 hk'
+            rw [← this]; exact he'
+          · right
+            have hk : e.2 = k := by rw [← heq]
+            have h1 : e.1 = nm := by rw [← heq]
+            refine ⟨by subst hk; subst h1; simp [he], fun e' he' hk' => hex ⟨e', he', hk'⟩⟩
+        · exact Or.inl h'
+      · have hk : e.2 ≠ k := h2 e (List.mem_cons_self ..)
+        right
+        refine ⟨by simp only [hk, if_false]; exact h1, fun e' he' => h2 e' (List.mem_cons_of_mem _ he')⟩
+
+/-- the model of `capture_names` on any table whose indices are in range and distinct per name:
+    no panic, `len` entries, entry `k` is `Some(name)` exactly for the entries `(name, k)` of the
+    table — whatever the iteration order -/
+theorem captureNames_spec (order : Names) (len : Nat) (hlt : ∀ e ∈ order, e.2 < len)
+    (hinj : ∀ e1 ∈ order, ∀ e2 ∈ order, e1.2 = e2.2 → e1.1 = e2.1) :
+    ∃ v, captureNames order len = some v ∧ v.length = len ∧
+      ∀ k nm, v[k]? = some (some nm) ↔ (nm, k) ∈ order := by
+  obtain ⟨v, hv, hl, hiff⟩ := captureNames_fold len order (List.replicate len none) (by simp) hlt hinj
+  refine ⟨v, hv, hl, fun k nm => ?_⟩
+  rw [hiff, List.getElem?_replicate]
+  constructor
+  · rintro (h | ⟨h1, _⟩)
+    · exact h
+    · split at h1 <;> cases h1
+  · exact Or.inl
+
+/-! ## Part 2 — `capture_names` -/
+
+/-- **C16_names_model**: for every pattern that parses and builds (on the Wrap and on the Fancy
+    path alike: `captures_len` is `b.nGroups`, `C16_len`), and for every iteration order of the
+    `HashMap` (`order` a permutation of the table), `capture_names`
+    * does not panic (`names[i] = …` is always in bounds),
+    * yields `captures_len = 1 + number of capture groups` entries,
+    * entry 0 is `None`,
+    * entry `k` is `Some(name)` iff `(name, k)` is in the table (so the result does not depend on
+      the order), and
+    * in terms of the pattern: entry `i + 1` is `Some(name)` iff the `(i+1)`-th capture group (the
+      one `renumber` numbers `i + 1`, `C16_preorder`) is written with that name (`ann[i]`) and no
+      later group is: a name written twice names the LATER group only, the earlier one is
+      reported as unnamed. -/
+theorem C16_names_model (isAlnum : Char → Bool) (cs : List Char) (casei : Bool) (t : Tree)
+    (h : parseStr isAlnum cs casei = .ok t) (b : Built) (hb : build t.expr t.backrefs = .ok b)
+    (order : Names) (hperm : order.Perm t.namedGroups) :
+    ∃ v, captureNames order b.nGroups = some v ∧
+      v.length = b.nGroups ∧ v.length = 1 + groupCount t.expr ∧
+      v[0]? = some none ∧
+      (∀ k nm, v[k]? = some (some nm) ↔ (nm, k) ∈ t.namedGroups) ∧
+      ∃ ann : List (Option Name), ann.length = groupCount t.expr ∧
+        ∀ i nm, v[i + 1]? = some (some nm) ↔
+          (ann[i]? = some (some nm) ∧ some nm ∉ ann.drop (i + 1)) := by
+  have hlen := C16_len t.expr t.backrefs b hb
+  obtain ⟨hnd, hfun, hinj⟩ := C16_names_distinct isAlnum cs casei t h
+  obtain ⟨v, hv, hl, hiff⟩ := captureNames_spec order b.nGroups
+    (fun e he => by
+      have := C16_names_range isAlnum cs casei t h e.1 e.2 (hperm.mem_iff.mp he)
+      omega)
+    (fun e1 h1 e2 h2 heq => by
+      have m1 : (e1.1, e1.2) ∈ t.namedGroups := hperm.mem_iff.mp h1
+      have m2 : (e2.1, e1.2) ∈ t.namedGroups := by rw [heq]; exact hperm.mem_iff.mp h2
+      exact hinj _ _ _ m1 m2)
+  have hiff' : ∀ k nm, v[k]? = some (some nm) ↔ (nm, k) ∈ t.namedGroups :=
+    fun k nm => (hiff k nm).trans hperm.mem_iff
+  refine ⟨v, hv, hl, by omega, ?_, hiff', ?_⟩
+  · have h0 : 0 < v.length := by omega
+    rw [List.getElem?_eq_getElem h0]
+    cases hx : v[0] with
+    | none => rfl
+    | some nm =>
+      have : v[0]? = some (some nm) := by rw [List.getElem?_eq_getElem h0, hx]
+      have := C16_names_range isAlnum cs casei t h nm 0 ((hiff' 0 nm).mp this)
+      omega
+  · obtain ⟨ann, hal, hab⟩ := C16_names_at_index isAlnum cs casei t h
+    refine ⟨ann, hal, fun i nm => ?_⟩
+    rw [hiff', hab, mem_bindNames_top]
+    simp
+
 end Fancy.Parse
+
+namespace Fancy
+open Fancy.Parse
+
+/-! ## The model of `Captures` -/
+
+/-- what `Captures::get` returns -/
+inductive Got where
+  /-- `None` -/
+  | absent
+  /-- `Some(Match { start, end })` -/
+  | span (start end_ : Nat)
+  /-- `saves[slot + 1]` out of bounds -/
+  | panic
+deriving DecidableEq, Repr
+
+/-- `Captures` on the VM path (`CapturesImpl::Fancy { saves }`, after `saves.truncate(n_groups * 2)`)
+    as the model's slot list (`none` = `usize::MAX`), with the `named_groups` it shares with the
+    `Regex`.  On the Wrap path the same slot list stands for regex-automata's `Captures`
+    (assumption A-RA). -/
+structure Caps where
+  slots : List (Option Nat)
+  names : Names
+
+/-- `Captures::len`: `saves.len() / 2` -/
+def Caps.len (c : Caps) : Nat := c.slots.length / 2
+
+/-- `Captures::get(i)` -/
+def Caps.get (c : Caps) (i : Nat) : Got :=
+  if i * 2 ≥ c.slots.length then .absent
+  else
+    match c.slots[i * 2]? with
+    | some (some lo) =>
+      match c.slots[i * 2 + 1]? with
+      | some hi => .span lo (hi.getD UNSET)
+      | none => .panic
+    | _ => .absent
+
+/-- `Captures::name(name)`: `self.named_groups.get(name).and_then(|i| self.get(*i))` -/
+def Caps.name (c : Caps) (nm : Name) : Got :=
+  match namedGet c.names nm with
+  | some i => c.get i
+  | none => .absent
+
+/-- `SubCaptureMatches { caps, i }` drained: `next` yields `get(i)` while `i < len` -/
+def Caps.iterFrom (c : Caps) (i : Nat) : List Got :=
+  if i < c.len then c.get i :: c.iterFrom (i + 1) else []
+termination_by c.len - i
+
+/-- `Captures::iter()`, collected -/
+def Caps.iter (c : Caps) : List Got := c.iterFrom 0
+
+theorem Caps.iterFrom_eq (c : Caps) : ∀ (k i : Nat), c.len - i = k →
+    c.iterFrom i = (List.range' i k).map c.get := by
+  intro k
+  induction k with
+  | zero =>
+    intro i h
+    rw [Caps.iterFrom, if_neg (by omega)]; rfl
+  | succ k ih =>
+    intro i h
+    rw [Caps.iterFrom, if_pos (by omega), ih (i + 1) (by omega), List.range'_succ]; rfl
+
+theorem Caps.iter_eq (c : Caps) : c.iter = (List.range c.len).map c.get := by
+  rw [Caps.iter, c.iterFrom_eq c.len 0 (by omega), List.range_eq_range']
+
+/-- a unique key is found -/
+theorem namedGet_of_mem : ∀ (m : Names) (nm : Name) (k : Nat), (m.map (·.1)).Nodup → (nm, k) ∈ m →
+    namedGet m nm = some k := by
+  intro m
+  induction m with
+  | nil => intro nm k _ h; cases h
+  | cons e es ih =>
+    intro nm k hnd h
+    simp only [List.map_cons, List.nodup_cons] at hnd
+    unfold namedGet
+    rcases List.mem_cons.mp h with rfl | h'
+    · simp
+    · have hne : (e.1 == nm) = false := by
+        apply Bool.eq_false_iff.mpr
+        intro heq
+        have : e.1 = nm := by simpa using heq
+        exact hnd.1 (this ▸ List.mem_map.mpr ⟨(nm, k), h', rfl⟩)
+      rw [List.find?_cons_of_neg (by simp [hne])]
+      exact ih nm k hnd.2 h'
+
+theorem namedGet_none : ∀ (m : Names) (nm : Name), (∀ k, (nm, k) ∉ m) → namedGet m nm = none := by
+  intro m nm h
+  unfold namedGet
+  rw [List.find?_eq_none.mpr]
+  · rfl
+  · intro e he heq
+    have : e.1 = nm := by simpa using heq
+    exact h e.2 (this ▸ he)
+
+/-! ## Part 3 — the accessors of `Captures` -/
+
+/-- **C16_caps_accessors**: the accessor laws, for every `Captures` value with `2 * n` slots:
+    `len = n`; `iter()` yields `len()` items, the `i`-th being `get(i)`; `get(i)` is `None` for
+    `i ≥ len`; `get` never indexes out of bounds; `name(n) = get(k)` for the entry `(n, k)` of the
+    name table (unique keys), and `None` for a name not in the table -/
+theorem C16_caps_accessors (c : Caps) (n : Nat) (hlen : c.slots.length = 2 * n) :
+    c.len = n ∧ c.iter.length = c.len ∧ (∀ i, i < c.len → c.iter[i]? = some (c.get i)) ∧
+    (∀ i, c.len ≤ i → c.get i = .absent) ∧ (∀ i, c.get i ≠ .panic) ∧
+    ((c.names.map (·.1)).Nodup → ∀ nm k, (nm, k) ∈ c.names → c.name nm = c.get k) ∧
+    (∀ nm, (∀ k, (nm, k) ∉ c.names) → c.name nm = .absent) := by
+  have hl : c.len = n := by unfold Caps.len; omega
+  refine ⟨hl, by rw [c.iter_eq]; simp, ?_, ?_, ?_, ?_, ?_⟩
+  · intro i hi
+    rw [c.iter_eq, List.getElem?_map, List.getElem?_range hi]; rfl
+  · intro i hi
+    unfold Caps.get
+    rw [if_pos (by omega)]
+  · intro i
+    unfold Caps.get
+    split
+    · simp
+    · rename_i hlt
+      have h1 : i * 2 + 1 < c.slots.length := by omega
+      split
+      · rw [List.getElem?_eq_getElem h1]; simp
+      · simp
+  · intro hnd nm k hk
+    unfold Caps.name
+    rw [namedGet_of_mem c.names nm k hnd hk]
+  · intro nm h
+    unfold Caps.name
+    rw [namedGet_none c.names nm h]
+
+/-- the laws of property C16 about one `Captures` value `c` of a regex with `n = captures_len`
+    groups, found by a search in context `ctx` -/
+structure CapsLaws (ctx : Ctx) (c : Caps) (n : Nat) : Prop where
+  /-- `Captures::len() = Regex::captures_len()` -/
+  len : c.len = n
+  /-- `get(0)` is `Some`: the overall match, `pos ≤ start ≤ end ≤ len(text)` -/
+  get0 : ∃ s e, c.get 0 = .span s e ∧ ctx.pos ≤ s ∧ s ≤ e ∧ e ≤ ctx.len
+  /-- `iter()` yields `len()` items … -/
+  iter_len : c.iter.length = c.len
+  /-- … the `i`-th being `get(i)` -/
+  iter_get : ∀ i, i < c.len → c.iter[i]? = some (c.get i)
+  /-- indices `≥ len` give `None` -/
+  get_ge : ∀ i, c.len ≤ i → c.get i = .absent
+  /-- `get` never indexes out of bounds -/
+  no_panic : ∀ i, c.get i ≠ .panic
+
+/-- the laws on a reported slot vector that is valid (`SlotsValid`: what `C05_offsets_valid`,
+    `C05_offsets_valid_wrap` establish of every result of the model search) -/
+theorem caps_of_valid (tree : Expr) (backrefs : List Nat) (b : Built) (ctx : Ctx)
+    (hb : build tree backrefs = .ok b) (slots : List (Option Nat))
+    (hv : SlotsValid ctx (2 * b.nGroups) slots) (names : Names) :
+    CapsLaws ctx ⟨slots, names⟩ b.nGroups ∧ b.nGroups = 1 + groupCount tree := by
+  have hn := C16_len tree backrefs b hb
+  obtain ⟨h1, h2, h3, h4, h5, _, _⟩ := C16_caps_accessors ⟨slots, names⟩ b.nGroups hv.len
+  refine ⟨⟨h1, ?_, h2, h3, h4, h5⟩, hn⟩
+  obtain ⟨s, e, hs, he, p1, p2, p3⟩ := hv.span (by omega)
+  refine ⟨s, e, ?_, p1, p2, p3⟩
+  have hlen : slots.length = 2 * b.nGroups := hv.len
+  have hs' : slots[0 * 2]? = some (some s) := hs
+  have he' : slots[0 * 2 + 1]? = some (some e) := he
+  unfold Caps.get
+  simp only
+  rw [if_neg (by omega), hs']
+  simp only [he', Option.getD_some]
+
+/-- **C16_caps_model**: every `Captures` the model search returns obeys the accessor laws —
+    whenever the model search equals the reference search up to the resource stops
+    (`VmCorrectR`: proved for the engine stages S2 `C01_vm_correct_s2` and S3 `C01_vm_correct_s3`;
+    the Wrap path is `C16_caps_wrap`) -/
+theorem C16_caps_model (tree : Expr) (backrefs : List Nat) (b : Built) (ctx : Ctx)
+    (hb : build tree backrefs = .ok b) (hcorr : VmCorrectR b ctx) (limit fuel : Nat)
+    (slots : List (Option Nat)) (hfound : (b.captures ctx limit fuel).1 = .found slots)
+    (names : Names) :
+    CapsLaws ctx ⟨slots, names⟩ b.nGroups ∧ b.nGroups = 1 + groupCount tree := by
+  refine caps_of_valid tree backrefs b ctx hb slots ?_ names
+  have h := hcorr limit fuel
+  rw [hfound] at h
+  rcases h with h | h | h | h
+  · cases h
+  · cases h
+  · cases h
+  · cases href : refSearch ctx b.raw b.nGroups with
+    | none => rw [href] at h; cases h
+    | some f =>
+      rw [href] at h
+      simp only [SearchResult.found.injEq] at h
+      subst h
+      exact refSearch_valid ctx b.raw b.nGroups (build_noSelfNest tree backrefs b hb) f href
+
+/-- the VM path, engine stage S2 -/
+theorem C16_caps_fancy (tree : Expr) (backrefs : List Nat) (b : Built) (prog : Prog) (ctx : Ctx)
+    (hb : build tree backrefs = .ok b) (hk : b.kind = .fancy prog)
+    (hok : s2ok b.raw = true) (hnd : noDeleg prog.body = true)
+    (hlen : ctx.len < UNSET) (hpos : ctx.pos ≤ ctx.len) (limit fuel : Nat)
+    (slots : List (Option Nat)) (hfound : (b.captures ctx limit fuel).1 = .found slots)
+    (names : Names) :
+    CapsLaws ctx ⟨slots, names⟩ b.nGroups ∧ b.nGroups = 1 + groupCount tree :=
+  caps_of_valid tree backrefs b ctx hb slots
+    (C05_offsets_valid tree backrefs b prog ctx hb hk hok hnd hlen hpos limit fuel slots hfound) names
+
+/-- the Wrap path (whole pattern handed to the automata engine; assumption A-RA), every pattern:
+    identical laws -/
+theorem C16_caps_wrap (tree : Expr) (backrefs : List Nat) (b : Built) (ctx : Ctx)
+    (hb : build tree backrefs = .ok b) (hk : b.kind = .wrap) (limit fuel : Nat)
+    (slots : List (Option Nat)) (hfound : (b.captures ctx limit fuel).1 = .found slots)
+    (names : Names) :
+    CapsLaws ctx ⟨slots, names⟩ b.nGroups ∧ b.nGroups = 1 + groupCount tree :=
+  caps_of_valid tree backrefs b ctx hb slots
+    (C05_offsets_valid_wrap tree backrefs b ctx hb hk limit fuel slots hfound) names
+
+/-- **C16_caps_names**: `name(n) = get(index of n)` for a pattern: with the table the parser built,
+    every name of the table is looked up at its group's index, which is `< len`; any other name
+    gives `None` -/
+theorem C16_caps_names (isAlnum : Char → Bool) (cs : List Char) (casei : Bool) (t : Tree)
+    (h : parseStr isAlnum cs casei = .ok t) (b : Built) (hb : build t.expr t.backrefs = .ok b)
+    (slots : List (Option Nat)) (hlen : slots.length = 2 * b.nGroups) :
+    let c : Caps := ⟨slots, t.namedGroups⟩
+    (∀ nm k, (nm, k) ∈ t.namedGroups → c.name nm = c.get k ∧ 1 ≤ k ∧ k < c.len) ∧
+    (∀ nm, (∀ k, (nm, k) ∉ t.namedGroups) → c.name nm = .absent) := by
+  intro c
+  obtain ⟨h1, _, _, _, _, h6, h7⟩ := C16_caps_accessors c b.nGroups hlen
+  have hn := C16_len t.expr t.backrefs b hb
+  refine ⟨fun nm k hk => ?_, h7⟩
+  have hr := C16_names_range isAlnum cs casei t h nm k hk
+  exact ⟨h6 (C16_names_distinct isAlnum cs casei t h).1 nm k hk, hr.1, by omega⟩
+
+end Fancy
